@@ -5,9 +5,13 @@ package bifrost_rpc_access
 
 // ---- C36: a request encoded into a component ID decodes back to the same request ----
 //@ func (*LookupRpcServiceRequest).MarshalComponentID
-//@   ensures r != nil ==> ret1 == nil && ret0 == b58enc(lrPB(r.ServiceId, r.ServerId))
+// (a request without unknown protobuf fields: the generated encoder appends any that a decoder kept;
+// decoding into a fresh request: the generated decoder merges into its receiver)
+//@   ensures r != nil ==> ret1 == nil
+//@   ensures r != nil && len(r.unknownFields) == 0 ==> ret0 == b58enc(lrPB(r.ServiceId, r.ServerId))
 //@ func (*LookupRpcServiceRequest).UnmarshalComponentID
 //@   modifies r
+//@   requires r.ServiceId == "" && r.ServerId == ""
 //@   ensures ret == nil ==> b58ok(componentID) && lrOK(b58dec(componentID)) && r.ServiceId == lrService(b58dec(componentID)) && r.ServerId == lrServer(b58dec(componentID))
 // (a request that names a service: the empty request encodes to the empty string, which the base58
 // decoder refuses - it is not a valid lookup either: Validate demands a service ID)
